@@ -54,6 +54,15 @@ def attribute(t, evn, idx, inv):
                 if "qlen" in evn and evn["qlen"] != prev["qlen"] + 1:
                     p = "C06"
                 break
+    if evn.get("ev") == "TrySend":
+        # a fallible-send critical section for an item that was handed to the PLAIN send: the plain send is no longer
+        # its one critical section (e.g. a try_send fast path followed by a clear in a second one), which loses accepted
+        # items when anything happens in between (C06) and breaks the overflow rule (C09)
+        for prev in reversed(t["trace"][:idx]):
+            if prev.get("ev") == "SendCall" and prev.get("item") == evn.get("item"):
+                if prev.get("kind") == "send":
+                    p = "C06+C09"
+                break
     if evn.get("ev") == "SendRet" and evn.get("res") == "sent":
         p = "C06"          # a plain send returned without a critical section of its own: the item is lost silently
     if evn.get("ev") == "CallerPanicked" and evn.get("op") == "send":
